@@ -237,6 +237,12 @@ func (w *responseWriter) writeHeader(status int) error {
 		if strings.HasPrefix(k, http.TrailerPrefix) {
 			continue
 		}
+		// Connection-specific fields must not be sent in HTTP/3 (RFC 9114, section 4.2); a
+		// handler written for HTTP/1.1 may still set them. The peer would treat the whole
+		// response as malformed.
+		if isConnectionSpecificHeader(k) {
+			continue
+		}
 		for index := range v {
 			name := strings.ToLower(k)
 			value := v[index]
@@ -365,4 +371,15 @@ func bodyAllowedForStatus(status int) bool {
 		return false
 	}
 	return true
+}
+
+// isConnectionSpecificHeader reports whether name is one of the connection-specific header
+// fields that are not allowed in HTTP/3 (the same list the parser rejects).
+func isConnectionSpecificHeader(name string) bool {
+	for _, h := range invalidHeaderFields {
+		if strings.EqualFold(name, h) {
+			return true
+		}
+	}
+	return false
 }
